@@ -688,29 +688,103 @@ theorem srcWm_rt (s : SrcWm) : SrcWm.ofCkpt s.ckpt = s := by
   obtain ⟨w, m, o⟩ := s
   simp [SrcWm.ofCkpt, SrcWm.ckpt, optTs_rt']
 
-theorem wm_rt (w : WmSt) (src0 : List (String × SrcWm)) (hn : (w.sources.map (·.1)).Nodup)
+theorem lookup_ne_none_of_mem {α} (l : List (String × α)) (kv : String × α) (h : kv ∈ l) : l.lookup kv.1 ≠ none := by
+  induction l with
+  | nil => cases h
+  | cons a t ih =>
+    obtain ⟨k', v'⟩ := a
+    simp only [List.lookup_cons]
+    cases hk : kv.1 == k' with
+    | true => simp
+    | false =>
+      simp only
+      apply ih
+      rcases List.mem_cons.mp h with h1 | h1
+      · subst h1; simp at hk
+      · exact h1
+
+/-- the tracker comes back exactly: every source with its watermark and maximum timestamp to the
+nanosecond, the effective and the applied watermark — provided the program's registered sources
+are among the tracker's (sources are never removed) -/
+theorem wm_restore_eq (w : WmSt) (src0 : List (String × SrcWm))
+    (h0 : ∀ kv ∈ src0, kv.1 ∈ w.sources.map (·.1))
+    (hi : w.lastApplied = none → w.effective = none) : WmSt.restore src0 w.ckpt = w := by
+  obtain ⟨srcs, eff, la⟩ := w
+  simp only [WmSt.restore, WmSt.ckpt, List.map_map, Option.map_map, optTs_rt'] at h0 ⊢
+  have h1 : List.map ((fun kv : String × SrcWmCkpt => (kv.1, SrcWm.ofCkpt kv.2)) ∘ fun kv : String × SrcWm => (kv.1, kv.2.ckpt)) srcs = srcs := by
+    apply map_eq_self
+    intro kv _
+    simp [srcWm_rt]
+  have h2 : List.filter (fun kv : String × SrcWm => !(List.map ((fun x : String × SrcWmCkpt => x.1) ∘ fun kv : String × SrcWm => (kv.1, kv.2.ckpt)) srcs).contains kv.1) src0 = [] := by
+    apply List.filter_eq_nil_iff.mpr
+    intro kv hkv
+    have := h0 kv hkv
+    simp only [Function.comp_def, Bool.not_eq_true, Bool.not_eq_false', List.contains_iff_mem] at this ⊢
+    simpa using this
+  rw [h1, h2, List.append_nil]
+  congr 1
+  cases la with
+  | none =>
+    have := hi rfl
+    simp only at this
+    subst this
+    rfl
+  | some t => simp [joinTs_split]
+
+theorem wm_rt (w : WmSt) (src0 : List (String × SrcWm)) (_hn : (w.sources.map (·.1)).Nodup)
     (h0 : ∀ k, w.sources.lookup k = none → src0.lookup k = none)
     (hi : w.lastApplied = none → w.effective = none) :
     (∀ k, (WmSt.restore src0 w.ckpt).sources.lookup k = w.sources.lookup k)
       ∧ (WmSt.restore src0 w.ckpt).effective = w.effective
       ∧ (WmSt.restore src0 w.ckpt).lastApplied = w.lastApplied := by
-  obtain ⟨srcs, eff, la⟩ := w
-  refine ⟨?_, ?_, ?_⟩
-  · intro k
-    simp only [WmSt.restore, WmSt.ckpt] at hn h0 ⊢
-    rw [lookup_foldl_upsert SrcWm.ofCkpt _ _ _ (by simpa [List.map_map, Function.comp_def] using hn)]
-    rw [lookup_map_snd]
-    cases hl : srcs.lookup k with
-    | none => simp [h0 k hl]
-    | some s => simp [srcWm_rt]
-  · simp [WmSt.restore, WmSt.ckpt, optTs_rt']
-  · cases la with
-    | none =>
-      have := hi rfl
-      simp only at this
-      subst this
-      simp [WmSt.restore, WmSt.ckpt]
-    | some t => simp [WmSt.restore, WmSt.ckpt, joinTs_split]
+  have h0' : ∀ kv ∈ src0, kv.1 ∈ w.sources.map (·.1) := by
+    intro kv hkv
+    by_cases hc : kv.1 ∈ w.sources.map (·.1)
+    · exact hc
+    · exact absurd (h0 kv.1 (lookup_none_of_not_mem w.sources kv.1 hc)) (lookup_ne_none_of_mem src0 kv hkv)
+  rw [wm_restore_eq w src0 h0' hi]
+  exact ⟨fun _ => rfl, rfl, rfl⟩
+
+/-- `upsert` never removes a key -/
+theorem mem_keys_upsert {α} (k k' : String) (v : α) (l : List (String × α)) (h : k ∈ l.map (·.1)) :
+    k ∈ (upsert k' v l).map (·.1) := by
+  induction l with
+  | nil => cases h
+  | cons a t ih =>
+    obtain ⟨k2, v2⟩ := a
+    simp only [upsert]
+    by_cases h2 : k2 = k'
+    · subst h2; simpa using h
+    · simp only [h2, if_false, List.map_cons, List.mem_cons] at h ⊢
+      rcases h with h | h
+      · exact Or.inl h
+      · exact Or.inr (ih h)
+
+/-- sources are never removed from the tracker: every state reached from the freshly loaded
+tracker still holds the registered sources (the premise of `wm_restore_eq`) -/
+theorem keys_step (w : WmSt) (op : WmOp) (k : String) (h : k ∈ w.sources.map (·.1)) :
+    k ∈ (w.step op).1.sources.map (·.1) := by
+  have hr : ∀ x : WmSt, x.recompute.sources = x.sources := by
+    intro x
+    simp only [WmSt.recompute]
+    split
+    · rfl
+    · split <;> rfl
+  cases op with
+  | observe src ts =>
+    simp only [WmSt.step, WmSt.observe, hr]
+    exact mem_keys_upsert _ _ _ _ h
+  | advance src t =>
+    simp only [WmSt.step, WmSt.advance]
+    split
+    · exact h
+    · simp only [hr]; exact mem_keys_upsert _ _ _ _ h
+
+theorem keys_run (ops : List WmOp) : ∀ (w : WmSt) (k : String), k ∈ w.sources.map (·.1) →
+    k ∈ (ops.foldl (fun w op => (w.step op).1) w).sources.map (·.1) := by
+  induction ops with
+  | nil => intro w k h; exact h
+  | cons op rest ih => intro w k h; exact ih _ k (keys_step w op k h)
 
 theorem vars_rt (vars vars0 : List (String × Val)) (hn : (vars.map (·.1)).Nodup)
     (h0 : ∀ k, vars.lookup k = none → vars0.lookup k = none) (k : String) :
